@@ -438,7 +438,7 @@ fn sequence_case(rep: &mut Report, seed: u64, i: u64) {
 /// The registered tag numbers of the `IanaTag` names, written from RFC 8949 section 3.4 (tags
 /// 0-5, 21-24, 32-36) and RFC 8746 (40, 41, 1040 and the typed-array block 64..=87, where 76 is
 /// reserved) - independently of the library's own table.
-fn iana_table() -> Vec<(IanaTag, u64)> {
+pub(crate) fn iana_table() -> Vec<(IanaTag, u64)> {
     use IanaTag::*;
     vec![
         (DateTime, 0), (Timestamp, 1), (PosBignum, 2), (NegBignum, 3), (Decimal, 4), (Bigfloat, 5),
